@@ -265,4 +265,76 @@ theorem lastIdx_none (p : ℚ → Bool) (l : List ℚ) (h : lastIdx p l = none) 
   intro v hv
   exact firstIdx_none p l.reverse h v (by simpa using hv)
 
+/-- the same spectrum with its wavelengths expressed in another unit (factor k) -/
+def scaleS (k : ℚ) (s : Spectrum) : Spectrum := ⟨s.wave.map (· * k), s.value⟩
+
+theorem keepMask_map (f : ℚ → ℚ) : ∀ (m : List Bool) (l : List ℚ), keepMask m (l.map f) = (keepMask m l).map f := by
+  intro m
+  induction m with
+  | nil => intro l; simp [keepMask]
+  | cons b bs ih =>
+    intro l
+    cases l with
+    | nil => simp [keepMask]
+    | cons x xs => cases b <;> simp [keepMask, ih]
+
+theorem mask_gt_scale (k a : ℚ) (hk : 0 < k) (l : List ℚ) :
+    (l.map (· * k)).map (fun w => !decide (a * k > w)) = l.map (fun w => !decide (a > w)) := by
+  simp only [List.map_map]
+  apply List.map_congr_left
+  intro w _
+  simp only [Function.comp, gt_iff_lt, mul_lt_mul_iff_of_pos_right hk]
+
+theorem mask_lt_scale (k a : ℚ) (hk : 0 < k) (l : List ℚ) :
+    (l.map (· * k)).map (fun w => !decide (a * k < w)) = l.map (fun w => !decide (a < w)) := by
+  simp only [List.map_map]
+  apply List.map_congr_left
+  intro w _
+  simp only [Function.comp, mul_lt_mul_iff_of_pos_right hk]
+
+def cropStage1 (lo w0 : ℚ) (s : Spectrum) : Spectrum :=
+  if lo > w0 then
+    ⟨keepMask (s.wave.map fun w => !decide (lo > w)) s.wave, keepMask (s.wave.map fun w => !decide (lo > w)) s.value⟩
+  else s
+
+def cropStage2 (hi : ℚ) (s1 : Spectrum) : Outcome :=
+  match s1.wave.getLast? with
+  | none => (s1, some .indexError)
+  | some wl =>
+    if hi < wl then
+      (⟨keepMask (s1.wave.map fun w => !decide (hi < w)) s1.wave, keepMask (s1.wave.map fun w => !decide (hi < w)) s1.value⟩, none)
+    else (s1, none)
+
+theorem crop_eq_stages (lo hi : ℚ) (s : Spectrum) :
+    crop lo hi s = match s.wave.head? with
+      | none => (s, some .indexError)
+      | some w0 => cropStage2 hi (cropStage1 lo w0 s) := by
+  cases h : s.wave.head? with
+  | none => simp [crop, h]
+  | some w0 =>
+    simp only [crop, h, cropStage1, cropStage2]
+    cases hl : (if lo > w0 then (⟨keepMask (s.wave.map fun w => !decide (lo > w)) s.wave, keepMask (s.wave.map fun w => !decide (lo > w)) s.value⟩ : Spectrum) else s).wave.getLast? <;> rfl
+
+theorem cropStage1_scale (k lo w0 : ℚ) (hk : 0 < k) (s : Spectrum) :
+    cropStage1 (lo * k) (w0 * k) (scaleS k s) = scaleS k (cropStage1 lo w0 s) := by
+  have hgt : (lo * k > w0 * k) ↔ (lo > w0) := by simp [gt_iff_lt, mul_lt_mul_iff_of_pos_right hk]
+  by_cases h1 : lo > w0
+  · have h1' : lo * k > w0 * k := hgt.mpr h1
+    simp only [cropStage1, scaleS, h1, h1', if_true, mask_gt_scale k lo hk, keepMask_map]
+  · have h1' : ¬ lo * k > w0 * k := fun h => h1 (hgt.mp h)
+    simp only [cropStage1, scaleS, h1, h1', if_false]
+
+theorem cropStage2_scale (k hi : ℚ) (hk : 0 < k) (s : Spectrum) :
+    cropStage2 (hi * k) (scaleS k s) = (scaleS k (cropStage2 hi s).1, (cropStage2 hi s).2) := by
+  simp only [cropStage2, scaleS, List.getLast?_map]
+  cases hl : s.wave.getLast? with
+  | none => simp
+  | some wl =>
+    have hlt : (hi * k < wl * k) ↔ (hi < wl) := mul_lt_mul_iff_of_pos_right hk
+    by_cases h2 : hi < wl
+    · have h2' : hi * k < wl * k := hlt.mpr h2
+      simp only [Option.map_some, h2, h2', if_true, mask_lt_scale k hi hk, keepMask_map]
+    · have h2' : ¬ hi * k < wl * k := fun h => h2 (hlt.mp h)
+      simp only [Option.map_some, h2, h2', if_false]
+
 end Lentil.Spec
